@@ -73,3 +73,10 @@ func (s *SortedSet) VerifHeightOf(ele collections.Comparable) int {
 	}
 	return 0
 }
+
+// VerifList exposes the skip list behind the set, so that the harness can call the exported
+// ZSkipList / ZSkipListNode methods (HeadNode, TailNode, Next, Before, Height, GetRank,
+// GetElementByRank, IsInRange, FirstInRange, LastInRange) directly.  Read-only use.
+func (s *SortedSet) VerifList() *ZSkipList {
+	return s.zsl
+}
